@@ -432,7 +432,7 @@ func scenarios(c *hl.Ctx, w *recWriter) []mc.Scenario {
 		sharedScenario("shared-sources: 2g alias A and B both ways", []string{"ab", "ba"}, unb, w),
 		sharedScenario("shared-sources: 3g alias A, child of A, B", []string{"a", "c", "b"}, unb, w),
 		sharedScenario("shared-sources: 3g two aliases each", []string{"ab", "ca", "bc"}, b3, w),
-	}, append(histScenarios(w), opsScenarios(c, w)...)...)
+	}, append(append(histScenarios(w), opsScenarios(c, w)...), derivedScenarios(c, w)...)...)
 }
 
 func run(c *hl.Ctx) {
@@ -440,9 +440,10 @@ func run(c *hl.Ctx) {
 	os.Stdout = devnull
 	w := &recWriter{}
 	logger.Switch(closerWriter{w})
-	c.Rule("E1: every interleaving (within the reported preemption bound; -1 = unbounded) of N goroutines calling WithContext/AliasContext and logging, scheduling points at the split read and write of the shared id counter (R4), at any lock (R1) and at any sync/atomic operation (R7); goroutines aliasing SHARED sources (two sources alive, aliased directly and through a child context by 2-3 goroutines at once); sequential sweep of 10 log functions x 10 context kinds (incl. aliases onto a parent carrying another id) x 7 messages; the 7 formatted variants x 3 context kinds x 13 (format, arguments) pairs, among them formats and arguments ending in a newline, %% and missing arguments (the message is what fmt.Sprintf makes of them; still exactly one line). A state = distinct observable outcome (relative ids per goroutine); transition = scheduling step or logging call." + historyRule + opsRule)
+	c.Rule("E1: every interleaving (within the reported preemption bound; -1 = unbounded) of N goroutines calling WithContext/AliasContext and logging, scheduling points at the split read and write of the shared id counter (R4), at any lock (R1) and at any sync/atomic operation (R7); goroutines aliasing SHARED sources (two sources alive, aliased directly and through a child context by 2-3 goroutines at once); sequential sweep of 10 log functions x 10 context kinds (incl. aliases onto a parent carrying another id) x 7 messages; the 7 formatted variants x 3 context kinds x 13 (format, arguments) pairs, among them formats and arguments ending in a newline, %% and missing arguments (the message is what fmt.Sprintf makes of them; still exactly one line). A state = distinct observable outcome (relative ids per goroutine); transition = scheduling step or logging call." + historyRule + opsRule + derivedRule)
 	c.Assume("accesses other than the instrumented counter/lock operations are judged by the separate free-running race-detector pass", "log lines are observed through a writer installed with logger.Switch", "the Info level is discarded by design: zero writes allowed for I/If", "messages that themselves contain a newline before their end span several lines by construction and are not judged; the plain variants with a message ending in a newline are not judged either (fmt.Sprintln semantics print an empty line after it)",
-		"history family: after logger.Close() and before the next Switch there is no current writer and lines are dropped (Close: 'discard any log util switch to fresh writer'); the value returned by Switch, which writer Close() closes, and the colour escapes sent to os.Stdout are not judged")
+		"history family: after logger.Close() and before the next Switch there is no current writer and lines are dropped (Close: 'discard any log util switch to fresh writer'); the value returned by Switch, which writer Close() closes, and the colour escapes sent to os.Stdout are not judged",
+		derivedAssume)
 	if c.Mode() == "race" {
 		racePass(c, w)
 		return
@@ -478,6 +479,8 @@ func run(c *hl.Ctx) {
 	historyFamily(c, closerWriter{w})
 	// operand-slice family (operands.go): the same caller-owned operand slice logged 1..3 times in a row
 	opsFamily(c, closerWriter{w})
+	// derived-parent family (derived.go): WithContext / AliasContext on parents that already carry ids
+	derivedFamily(c, w)
 }
 
 func racePass(c *hl.Ctx, w *recWriter) {
@@ -515,6 +518,9 @@ func replay(c *hl.Ctx, raw json.RawMessage) {
 		return
 	}
 	if replayOps(c, raw, w) {
+		return
+	}
+	if replayDerived(c, raw, w) {
 		return
 	}
 	var rc mc.ReplayCase
